@@ -175,6 +175,13 @@ FamDirVars ==
   { Case("dirvars", [ops |-> <<Op("D", "query", DirVarsDefs, t)>>, frags |-> DirFrags], "D", g, {}) :
        t \in DirTargets(DirBoth) \cup DirTwice(<<Dir("skip", Var("s"))>>, <<Dir("include", Var("i"))>>), g \in DirVarsGiven }
 
+\* a condition variable set to null where the operation gives it a default: null is what counts (C04), and null decides
+\* nothing: the selection is not made, whatever the default says
+DirNullGiven == { [s |-> NullV], [i |-> NullV], [s |-> NullV, i |-> BoolV(TRUE)], [s |-> BoolV(FALSE), i |-> NullV] }
+FamDirNull ==
+  { Case("dirnull", [ops |-> <<Op("D", "query", DirVarsDefs, t)>>, frags |-> DirFrags], "D", g, {}) :
+       t \in DirTargets(<<Dir("include", Var("i"))>>) \cup DirTargets(<<Dir("skip", Var("s"))>>) \cup DirTargets(DirBoth), g \in DirNullGiven }
+
 \* ---- one defect injected into a valid request (C10) ---------------------------------------
 BogusArg == Arg("bogus", IntV(1))
 FamDefects ==
@@ -436,6 +443,6 @@ FamMixed ==
 Families ==
   [ flat |-> FamFlat, nest1 |-> FamNest1, nest2 |-> FamNest2, nest3 |-> FamNest3,
     inline1 |-> FamInline1, inline2 |-> FamInline2, spread |-> FamSpread, dups |-> FamDups,
-    args |-> FamArgs, ops |-> FamOps, dirs |-> FamDirs, dirvars |-> FamDirVars, defect |-> FamDefects,
+    args |-> FamArgs, ops |-> FamOps, dirs |-> FamDirs, dirvars |-> FamDirVars, dirnull |-> FamDirNull, defect |-> FamDefects,
     inputs |-> FamInputs, mixed |-> FamMixed, abstract |-> FamAbstract, absops |-> FamAbsOps, forms |-> FamForms, defectabs |-> FamDefectsAbs, faultnth |-> FamFaultsNth, fault0 |-> FamFaults0, fault1 |-> FamFaults1, fault2 |-> FamFaults2 ]
 =============================================================================
